@@ -266,6 +266,14 @@ class SymNum:
         # nearest multiple of 10**-n (ties upwards; Python rounds the binary float half-to-even: the two only differ on
         # exact ties, and every counterexample is replayed on real floats)
         scale = 10 ** (n or 0)
+        # terms built from decimals k / 10^d by +, -, constants and if-then-else: round in integer arithmetic
+        for d in (7, 9, 12):
+            if d > (n or 0):
+                m = _scaled_int(self.t, 10 ** d)
+                if m is not None:
+                    step = 10 ** (d - (n or 0))
+                    q = (m + step // 2) / step             # integer division by a positive constant: floor
+                    return make(self.eng, q) if not n else make(self.eng, z3.ToReal(q) / scale)
         SymNum._round_counter = getattr(SymNum, "_round_counter", 0) + 1
         q = z3.Int("round_q_%d" % SymNum._round_counter)          # q <= x*scale + 1/2 < q + 1  (linear, no to_int)
         s = self.t * scale + z3.RealVal(1) / 2
@@ -286,6 +294,52 @@ class SymNum:
 
     def __copy__(self):
         return self
+
+
+def _scaled_int(t, D):
+    """An Int term m with t == m / D, for real terms made of to_real(int), rational constants, +, -, unary -, products with a
+    constant, divisions by a constant and ite; None when t has another shape (or a constant is not a multiple of 1/D)."""
+    from fractions import Fraction
+    if z3.is_int(t):
+        return t * D
+    if z3.is_rational_value(t):
+        f = Fraction(t.numerator_as_long(), t.denominator_as_long()) * D
+        return z3.IntVal(int(f)) if f.denominator == 1 else None
+    if not z3.is_app(t):
+        return None
+    k, ch = t.decl().kind(), t.children()
+    if k == z3.Z3_OP_TO_REAL:
+        return ch[0] * D
+    if k in (z3.Z3_OP_ADD, z3.Z3_OP_SUB):
+        parts = [_scaled_int(c, D) for c in ch]
+        if any(x is None for x in parts):
+            return None
+        out = parts[0]
+        for x in parts[1:]:
+            out = out + x if k == z3.Z3_OP_ADD else out - x
+        return out
+    if k == z3.Z3_OP_UMINUS:
+        x = _scaled_int(ch[0], D)
+        return None if x is None else -x
+    if k == z3.Z3_OP_ITE:
+        a, b = _scaled_int(ch[1], D), _scaled_int(ch[2], D)
+        return None if a is None or b is None else z3.If(ch[0], a, b)
+    if k == z3.Z3_OP_DIV and z3.is_rational_value(ch[1]):
+        f = Fraction(ch[1].numerator_as_long(), ch[1].denominator_as_long())
+        if f != 0 and (Fraction(D) / f).denominator == 1:
+            return _scaled_int(ch[0], int(Fraction(D) / f))
+        return None
+    if k == z3.Z3_OP_MUL and len(ch) == 2:
+        for c, o in ((ch[0], ch[1]), (ch[1], ch[0])):
+            if z3.is_rational_value(c):
+                f = Fraction(c.numerator_as_long(), c.denominator_as_long())
+                if f.denominator == 1:
+                    x = _scaled_int(o, D)
+                    return None if x is None else x * int(f)
+                if (Fraction(D) * f).denominator == 1 and f.numerator == 1:
+                    return _scaled_int(o, int(Fraction(D) * f))
+        return None
+    return None
 
 
 class SymInt(SymNum):
